@@ -148,7 +148,22 @@ Lemma do_input_inv al cur ms tok ms' :
 Proof.
   intros HI Hc H. unfold do_input in H. cbn [bind] in H.
   destruct (pni tok) as [[p i]|] eqn:Ep; [|discriminate]. cbn [bind] in H.
-  destruct (has_find _ _ Hc) as [m Hm]. rewrite (get_model_find _ _ _ Hm) in H.
+  destruct (has_find _ _ Hc) as [m Hm].
+  destruct (input_io cur p ms) eqn:Eio.
+  { (* an output port named as input: INOUT, nothing is connected *)
+    inversion H; subst ms'. clear H. unfold input_io in Eio. rewrite (get_model_find _ _ _ Hm) in Eio.
+    destruct (find_port p (m_ports m)) as [q0|] eqn:Eq; [|discriminate].
+    set (ms1 := upd_model cur _ ms).
+    assert (HI1 : Inv ms1) by (apply inv_set_dir; assumption).
+    assert (Hm1 : find_model cur ms1 = Some (set_ports m (upd_port p (fun q => set_pdir q DInout) (m_ports m)))).
+    { unfold ms1. rewrite find_model_upd; [|intros x Hx; exact Hx]. rewrite Hm.
+      pose proof (find_model_In _ _ _ Hm) as [_ Hn]. rewrite Hn, str_eqb_refl. reflexivity. }
+    assert (Hq1 : exists q1, find_port p (m_ports (set_ports m (upd_port p (fun q => set_pdir q DInout) (m_ports m)))) = Some q1).
+    { cbn [set_ports m_ports]. rewrite find_port_upd; [|reflexivity]. rewrite Eq. eauto. }
+    destruct Hq1 as [q1 Hq1]. split.
+    - eapply inv_grow_port; eauto.
+    - rewrite names_grow_port. unfold ms1. apply upd_model_names. intros x Hx. exact Hx. }
+  rewrite (get_model_find _ _ _ Hm) in H.
   destruct (find_port p (m_ports m)) as [q0|] eqn:Eq.
   - (* the port exists: its direction becomes IN *)
     set (ms1 := upd_model cur _ ms) in H.
@@ -776,6 +791,8 @@ Proof. intros He Hs. apply (fold_res_inv f (fun a => Oinv (g a)) He Hs). Qed.
 Lemma oinv_do_input al cur ms tok ms' : Oinv ms -> do_input al cur (Ok ms) tok = Ok ms' -> Oinv ms'.
 Proof.
   intros HO H. unfold do_input in H. cbn [bind] in H. destruct (pni tok) as [[p i]|]; [|discriminate]. cbn [bind] in H.
+  destruct (input_io cur p ms).
+  { inversion H; subst. apply oinv_grow_port. apply oinv_upd_model; auto. }
   eapply oinv_upd_model_res; [|exact H|intros; eapply connect_to_orph; eauto].
   apply oinv_grow_port. destruct (find_port _ _); [apply oinv_upd_model; auto|apply oinv_add_port; assumption].
 Qed.
